@@ -77,13 +77,21 @@ theorem proof_options_roundtrip (o : ProofOptions) (h : o.Valid) (r : Bytes) :
 /-- Context (trace info, modulus bytes, options, constraint count) -/
 theorem context_roundtrip (c : Context) (h : c.Valid) (r : Bytes) :
     Context.decode (c.encode ++ r) = .ok c r := by
-  obtain ⟨hi, ho, _, _, hnc0, hnc, hm0, hm⟩ := h
+  obtain ⟨hi, ho, _, _, hnc0, hnc, hm0, hm, hnz⟩ := h
   unfold Context.decode Context.encode lenBytesEnc
   simp only [List.append_assoc]
   rw [trace_info_roundtrip _ hi]; simp only []
   rw [readU8_append _ _ (by omega)]; simp only []
   have : ¬ c.modulus.length = 0 := by omega
   rw [if_neg this, readSlice_append]; simp only []
+  -- the modulus of a valid context is not all zero, so `read_from`'s zero-modulus check passes
+  have hall : ¬ (c.modulus.all (· == 0)) = true := by
+    intro hall
+    rw [List.any_eq_true] at hnz
+    obtain ⟨b, hb, hb0⟩ := hnz
+    have := (List.all_eq_true.1 hall) b hb
+    simp_all
+  rw [if_neg hall]
   rw [proof_options_roundtrip _ ho]; simp only []
   rw [readUsize_writeUsize _ _ (by omega)]
 
@@ -116,10 +124,11 @@ theorem fri_layer_roundtrip (l : Bytes × Bytes) (r : Bytes) (h0 : l.1 ≠ []) (
   rw [List.append_assoc] at this
   rw [this]
 
-/-- FRI proof: up to 255 layers, remainder shorter than 2^16 bytes, partition byte -/
+/-- FRI proof: up to 255 layers, remainder shorter than 2^16 bytes, partition exponent below 64
+(`FriProof::new` stores `trailing_zeros` of a power-of-two usize; `read_from` rejects 64..255) -/
 theorem fri_proof_roundtrip (p : FriProof) (r : Bytes) (hl : p.layers.length < 256)
     (hv : ∀ l ∈ p.layers, l.1 ≠ [] ∧ l.1.length < 2 ^ 32 ∧ l.2.length < 2 ^ 32)
-    (hr : p.remainder.length < 65536) (hn : p.numPartitions < 256) :
+    (hr : p.remainder.length < 65536) (hn : p.numPartitions < 64) :
     friProofDec (friProofEnc p ++ r) = .ok p r := by
   unfold friProofDec friProofEnc
   simp only [List.append_assoc]
@@ -135,7 +144,9 @@ theorem fri_proof_roundtrip (p : FriProof) (r : Bytes) (hl : p.layers.length < 2
   simp only []
   rw [lenBytes_roundtrip 2 _ _ (by simpa using hr)]
   simp only []
-  rw [readU8_append _ _ hn]
+  rw [readU8_append _ _ (by omega)]
+  simp only []
+  rw [if_neg (by omega)]
 
 /-- Queries = two byte vectors with vint64 lengths -/
 theorem bytes_vec_roundtrip (s r : Bytes) (hs : s.length < 2 ^ 64) :
